@@ -39,6 +39,17 @@
                              and the object returned before the error is permitted once every
                              exclusion `b but not s` is read as `b` (the Difference worker broadcasts
                              base minus an INCOMPLETE subtract set when the subtract side failed)
+     limit_cancel_race       TRANSIENT unary answer (mode 2: shorter than the limit allowed, not repeated
+                             by an immediate second call) of the classic/weighted engine with a limit,
+                             the missing object is a RequiresFurtherEval candidate and there are more
+                             candidates than the limit (trySendObject reserves a slot, then loses the
+                             select against cancel(); Props/C05.v lo_limit_racy_refuted)
+     eval_error_lost_on_cancel   TRANSIENT answer of the classic/weighted engine without error although a
+                             condition-evaluation error is reachable for the request: the reverse
+                             expansion signals reverseExpandDoneWithError before it returns its error,
+                             the consumer cancels, and a Check goroutine's context.Canceled becomes the
+                             pool's first error, which evaluate ignores
+     A transient answer whose shortfall neither trigger explains is a PROP like any other.
    DIFF: the extracted Coq [evaluate], run on the recorded candidate stream with check := Sem and
      the arrival order reconstructed from the observed result, differs (as a set) from the result
      although no PROP/KNOWN explains the run.
@@ -193,18 +204,27 @@ let f _id vs =
             | l' -> (match List.nth_opt l' k with Some v -> as_int v = 1 | None -> false)) (as_list l) in
           let cond_seen = ec_of runs 4 || ec_of streams 2 in
           let err_evidence = lazy (has_e && (cond_seen || List.exists (fun id -> List.mem AEc (fst (check_of id))) univ)) in
+          let stream_tbl : (int * int, (nat * status) list * bool) Hashtbl.t = Hashtbl.create 4 in
           let where b e = Printf.sprintf "%s/%s ListObjects(t%d#r%d@%s)" (be_s b) (eng_s e) (int_of_n ot) (int_of_n rel) (subj_s subj) in
           let known flag txt = knowns := (flag ^ " " ^ txt) :: !knowns in
           (* an object whose presence (returned = true) or absence deviates from the reference *)
           (* nocheck: no Check call is involved in this observation (classic reverse expansion's own
              NoFurtherEval / completeness contract), so the Check findings cannot explain it *)
-          let deviation ?(l0 = false) ?(failopen = false) ?(nocheck = false) b e returned id what =
+          let deviation ?(l0 = false) ?(failopen = false) ?(nocheck = false) ?(transient = false) ?(limit = 0) b e returned id what =
             let txt = Printf.sprintf "%s: object %d %s (spec=%s)" (where b e) id what (b3s (spec id)) in
             if leak_obj b id then (known "rswu_userset_leak" txt; true)
             else if strict_obj e id then (known "pipeline_strict_condition_filter" txt; true)
             else if failopen && returned && e = 2 && has_e && (Lazy.force spec_nodiff) id = T then
               (known "pipeline_streamed_error_failopen" txt; true)
             else if l0 && not returned && e <> 2 && Lazy.force err_evidence then (known "limit0_error_swallowed" txt; true)
+            else if transient && not returned && e <> 2 && Lazy.force err_evidence then (known "eval_error_lost_on_cancel" txt; true)
+            else if transient && not returned && e <> 2 && limit > 0 &&
+                    (match Hashtbl.find_opt stream_tbl (b, e) with
+                     | Some (ccands, _) ->
+                       List.length (distinct_objs_nat ccands) > limit &&
+                       List.exists (fun (n, st) -> int_of_nat n = id && st = RequiresFurtherEval) ccands
+                     | None -> false)
+            then (known "limit_cancel_race" txt; true)
             else if e <> 2 && not nocheck then begin
               let (oset, tr) = check_of id in
               let consistent = if returned then List.mem AT oset else List.exists (fun a -> a <> AT) oset in
@@ -213,7 +233,6 @@ let f _id vs =
               else (props := txt :: !props; false)
             end else (props := txt :: !props; false) in
           (* ---- candidate streams ---- *)
-          let stream_tbl = Hashtbl.create 4 in
           List.iter (fun sv ->
             match as_list sv with
             | [bv; ev; ecv; cvs] ->
@@ -262,9 +281,11 @@ let f _id vs =
             match as_list runv with
             | [bv; ev; modev; limv; ecv; ovs] ->
               let b = as_int bv and e = as_int ev and mode = as_int modev and limit = as_int limv and ec = as_int ecv in
+              let transient = mode >= 2 in
+              let mode = if transient then mode - 2 else mode in
               let e = if e = 2 && (match subj with SObj _ -> false | _ -> true) then 0 else e in
               let objs = List.map as_int (as_list ovs) in
-              let w = Printf.sprintf "%s %s limit=%d" (where b e) (if mode = 1 then "streamed" else "unary") limit in
+              let w = Printf.sprintf "%s %s%s limit=%d" (where b e) (if transient then "transient " else "") (if mode = 1 then "streamed" else "unary") limit in
               let bad = ref false in
               let flag_prop txt = props := txt :: !props; bad := true in
               if not subj_valid then begin
@@ -298,13 +319,13 @@ let f _id vs =
                     List.iter (fun id ->
                       if not (List.mem id objs) then begin
                         bad := true;
-                        ignore (deviation ~l0:(limit = 0 && mode = 0) b e false id
-                                  (Printf.sprintf "permitted but missing (limit %d, %d returned, %s)" limit (List.length objs)
-                                     (if mode = 1 then "streamed" else "unary")))
+                        ignore (deviation ~l0:(limit = 0 && mode = 0) ~transient:(transient && (mode = 1 || limit > 0)) ~limit b e false id
+                                  (Printf.sprintf "permitted but missing (limit %d, %d returned, %s%s)" limit (List.length objs)
+                                     (if mode = 1 then "streamed" else "unary") (if transient then ", transient: a repetition of the call was complete" else "")))
                       end) permitted
                 end;
                 (* ---- the Coq evaluate model on the recorded candidates ---- *)
-                if ec = 0 && e <> 2 && not !bad then begin
+                if ec = 0 && e <> 2 && not !bad && not transient then begin
                   match Hashtbl.find_opt stream_tbl (b, e) with
                   | Some (ccands, false) ->
                     let chk n = isperm (int_of_nat n) in
@@ -321,7 +342,7 @@ let f _id vs =
                 end;
                 (* ---- the Coq model of the pipeline's output stage (de-duplication + Recv loop) on
                         the values of the unlimited streamed call, delivery order reconstructed ---- *)
-                if ec = 0 && e = 2 && mode = 0 && not !bad then begin
+                if ec = 0 && e = 2 && mode = 0 && not !bad && not transient then begin
                   match Hashtbl.find_opt pipe_values b with
                   | Some values ->
                     let out = pipeline_recv_nat (nat_list (objs @ values)) (nat_of_int limit) in
@@ -340,9 +361,15 @@ let f _id vs =
      | p :: _, _, _ -> "PROP " ^ p ^ (match !diffs with d :: _ -> " || also model-diff: " ^ d | [] -> "")
      | [], d :: _, _ -> "DIFF " ^ d
      | [], [], (_ :: _ as ks) ->
-       (* report the flag that is specific to this property first *)
-       let pref = List.filter (fun k -> String.length k >= 4 && String.sub k 0 4 = "rswu") ks in
-       "KNOWN " ^ (match pref with k :: _ -> k | [] -> List.hd (List.rev ks))
+       (* one verdict per record: report the rarest flag present *)
+       let prio = ["limit_cancel_race"; "eval_error_lost_on_cancel"; "rswu_userset_leak"; "pipeline_streamed_error_failopen";
+                   "pipeline_strict_condition_filter"; "weighted_degenerate_rewrite"; "cond_err_swallowed"; "excl_sub_cycle";
+                   "limit0_error_swallowed"] in
+       let has f k = String.length k > String.length f && String.sub k 0 (String.length f + 1) = f ^ " " in
+       let rec pick = function
+         | [] -> List.hd (List.rev ks)
+         | f :: fs -> (match List.filter (has f) (List.rev ks) with k :: _ -> k | [] -> pick fs) in
+       "KNOWN " ^ pick prio
      | [], [], [] -> "OK")
   | _ -> "DIFF malformed-record"
 
